@@ -25,7 +25,17 @@
  *     ONE compression object and ONE decompression object for the whole sequence ("abbreviated
  *     datastreams and multiple images"); prelude 1 = jpeg_write_tables() first, read as a tables-only stream.
  *   -> seq ok <hex> | blocks ; <hex> | blocks ; ...        (prelude: "<hex> |" with no blocks)
- * errors: "api err <code>" / "seq err <code> frame <i>"
+ * bimg <bits> <ncomp> <w> <h> <kind> <p1> <seed> <quality|-1> <ntab> [<64 q>]*ntab <tq0..tq3> <script> <mode> <smooth> <dseed>
+ *     multi-scan file decoded in BUFFERED-IMAGE mode (libjpeg.txt "Buffered-image mode"):
+ *     script 0 jpeg_simple_progression   1 sequential, one scan per component   2 progressive, DC and AC scan per component
+ *            3 progressive per component with successive approximation (Al = 1, then refinement scans)
+ *     mode 0 display loop for a fast source: while (!jpeg_input_complete) { jpeg_start_output(input_scan_number);
+ *              read all rows; jpeg_finish_output }; the last pass of the loop is the image
+ *          1 random pacing: some jpeg_consume_input calls, a pass on input_scan_number (complete or abandoned after some
+ *              rows), ... ; when input is complete one final full pass
+ *          2 an early pass at every scan (abandoned after a random number of rows), then the final pass
+ *   -> bimg ok <hex> | blocks of the FINAL pass | same=<final pass == one-shot decode> passes=<n>
+ * errors: "api err <code>" / "seq err <code> frame <i>" / "bimg err <code>"
  */
 #include <stdio.h>
 #include <stdlib.h>
@@ -403,6 +413,118 @@ static void do_seq(void)
   jpeg_destroy_compress(&sc); jpeg_destroy_decompress(&sdc); free(fsrc); free(fdst); free(jb_); free(obuf);
 }
 
+static void read_rows(j_decompress_ptr d, unsigned short *out, int bits, int w, int nc, int nrows)
+{
+  int i, y, k = 0;
+  JSAMPLE *r8 = malloc(w * nc); J12SAMPLE *r12 = malloc(sizeof(J12SAMPLE) * w * nc);
+  while (d->output_scanline < d->output_height && k < nrows) {
+    y = d->output_scanline;
+    if (bits == 8) { JSAMPROW rp = r8; if (jpeg_read_scanlines(d, &rp, 1) != 1) break; for (i = 0; i < w * nc; i++) out[y * w * nc + i] = r8[i]; }
+    else { J12SAMPROW rp = r12; if (jpeg12_read_scanlines(d, &rp, 1) != 1) break; for (i = 0; i < w * nc; i++) out[y * w * nc + i] = (unsigned short)r12[i]; }
+    k++;
+  }
+  free(r8); free(r12);
+}
+
+static void do_bimg(void)
+{
+  static jpeg_scan_info scans[32];
+  static unsigned short *ref;
+  int bits, nc, w, h, kind, p1, quality, ntab, i, c, t, script, mode, smooth, ns = 0, passes = 0, tq[4], base;
+  if (nvals < 9) { printf("bimg badcase\n"); return; }
+  bits = vals[0]; nc = vals[1]; w = vals[2]; h = vals[3]; kind = vals[4]; p1 = vals[5]; quality = vals[7]; ntab = vals[8];
+  if (ntab < 0 || ntab > 4 || nvals != 9 + 64 * ntab + 8 || (nc != 1 && nc != 3 && nc != 4) || (bits != 8 && bits != 12) ||
+      w < 1 || h < 1 || w > 512 || h > 512) { printf("bimg badcase\n"); return; }
+  base = 9 + 64 * ntab;
+  for (i = 0; i < 4; i++) tq[i] = vals[base + i];
+  script = vals[base + 4]; mode = vals[base + 5]; smooth = vals[base + 6];
+  free(src); free(dst); free(ref);
+  src = gen_image(bits, nc, w, h, kind, p1, (unsigned long long)vals[6]);
+  dst = calloc(sizeof(unsigned short), w * h * nc); ref = calloc(sizeof(unsigned short), w * h * nc);
+  if (setjmp(jb)) { printf("bimg err %d\n", last_err); jpeg_abort_compress(&cc); jpeg_abort_decompress(&dc); return; }
+  free(jbuf); jbuf = NULL; jlen = 0;
+  if (cc.dest == &sd.pub) cc.dest = NULL;
+  jpeg_mem_dest(&cc, &jbuf, &jlen);
+  cc.image_width = w; cc.image_height = h; cc.input_components = nc;
+  cc.in_color_space = nc == 1 ? JCS_GRAYSCALE : nc == 3 ? JCS_RGB : JCS_CMYK;
+  cc.data_precision = bits;
+  jpeg_set_defaults(&cc);
+  cc.data_precision = bits;
+  jpeg_set_colorspace(&cc, cc.in_color_space);
+  cc.dct_method = JDCT_ISLOW;
+  if (quality >= 0) jpeg_set_quality(&cc, quality, FALSE);
+  for (t = 0; t < ntab; t++) {
+    unsigned int tbl[64];
+    for (i = 0; i < 64; i++) tbl[i] = (unsigned int)vals[9 + 64 * t + i];
+    jpeg_add_quant_table(&cc, t, tbl, 100, FALSE);
+  }
+  for (c = 0; c < nc; c++) {
+    if (tq[c] >= 0) cc.comp_info[c].quant_tbl_no = tq[c];
+    cc.comp_info[c].h_samp_factor = cc.comp_info[c].v_samp_factor = 1;
+  }
+#define SCAN(comp, ss, se, ah, al) do { scans[ns].comps_in_scan = 1; scans[ns].component_index[0] = (comp); \
+    scans[ns].Ss = (ss); scans[ns].Se = (se); scans[ns].Ah = (ah); scans[ns].Al = (al); ns++; } while (0)
+  if (script == 0) jpeg_simple_progression(&cc);
+  else {
+    if (script == 1) for (c = 0; c < nc; c++) SCAN(c, 0, 63, 0, 0);
+    else if (script == 2) { for (c = 0; c < nc; c++) SCAN(c, 0, 0, 0, 0); for (c = 0; c < nc; c++) SCAN(c, 1, 63, 0, 0); }
+    else { for (c = 0; c < nc; c++) SCAN(c, 0, 0, 0, 1); for (c = 0; c < nc; c++) SCAN(c, 1, 63, 0, 1);
+           for (c = 0; c < nc; c++) SCAN(c, 0, 0, 1, 0); for (c = 0; c < nc; c++) SCAN(c, 1, 63, 1, 0); }
+    cc.scan_info = scans; cc.num_scans = ns;
+  }
+  jpeg_start_compress(&cc, TRUE);
+  write_image(&cc, src, bits, w, h, nc, NULL);
+  jpeg_finish_compress(&cc);
+  cc.scan_info = NULL; cc.num_scans = 0;
+  /* one-shot reference decode */
+  jpeg_mem_src(&dc, jbuf, jlen);
+  jpeg_read_header(&dc, TRUE);
+  dc.out_color_space = dc.jpeg_color_space; dc.dct_method = JDCT_ISLOW;
+  jpeg_start_decompress(&dc);
+  read_image(&dc, ref, bits, w, nc);
+  jpeg_finish_decompress(&dc);
+  /* buffered-image decode */
+  sm = (unsigned long long)vals[base + 7];
+  jpeg_mem_src(&dc, jbuf, jlen);
+  jpeg_read_header(&dc, TRUE);
+  dc.out_color_space = dc.jpeg_color_space; dc.dct_method = JDCT_ISLOW;
+  dc.buffered_image = TRUE;
+  dc.do_block_smoothing = smooth ? TRUE : FALSE;
+  jpeg_start_decompress(&dc);
+  if (mode == 0) {
+    while (!jpeg_input_complete(&dc)) {
+      jpeg_start_output(&dc, dc.input_scan_number);
+      read_rows(&dc, dst, bits, w, nc, h);
+      jpeg_finish_output(&dc);
+      passes++;
+    }
+  } else {
+    while (!jpeg_input_complete(&dc)) {
+      int rows, k, scan0 = dc.input_scan_number;
+      if (mode == 1) { k = (int)(rnd() % 12); while (k-- > 0 && jpeg_consume_input(&dc) != JPEG_REACHED_EOI) ; }
+      else { while (!jpeg_input_complete(&dc) && dc.input_scan_number == scan0 && passes > 0) if (jpeg_consume_input(&dc) == JPEG_REACHED_EOI) break; }
+      if (jpeg_input_complete(&dc)) break;
+      jpeg_start_output(&dc, dc.input_scan_number);
+      rows = (rnd() % 3 == 0) ? h : (int)(rnd() % (h + 1));
+      read_rows(&dc, dst, bits, w, nc, rows);
+      jpeg_finish_output(&dc);
+      passes++;
+    }
+  }
+  if (mode != 0 || passes == 0) {       /* the final pass, input complete */
+    jpeg_start_output(&dc, dc.input_scan_number);
+    read_rows(&dc, dst, bits, w, nc, h);
+    jpeg_finish_output(&dc);
+    passes++;
+  }
+  jpeg_finish_decompress(&dc);
+  printf("bimg ok ");
+  print_header(jbuf, jlen);
+  printf(" |");
+  print_blocks(src, dst, w, h, nc);
+  printf(" | same=%d passes=%d\n", !memcmp(dst, ref, sizeof(unsigned short) * w * h * nc), passes);
+}
+
 int main(void)
 {
   setvbuf(stdout, NULL, _IOLBF, 0);
@@ -414,6 +536,7 @@ int main(void)
   while (getline(&line, &cap, stdin) > 0) {
     if (!strncmp(line, "api ", 4)) { parse(line + 4); do_api(); }
     else if (!strncmp(line, "seq ", 4)) { parse(line + 4); do_seq(); }
+    else if (!strncmp(line, "bimg ", 5)) { parse(line + 5); do_bimg(); }
     else printf("unknown\n");
   }
   if (setjmp(jb)) return 0;
